@@ -28,7 +28,7 @@ def client_variants(rng, key, how):
 def gen_episode(rng, big=False):
     strat = rng.choice(["ip_hash", "ip_hash_consistent", "ip_hash_consistent"])
     n = rng.randint(1, 32 if big else 8)
-    g = lbgen.Gen(rng, strategy=strat, passive=False, nback=n, weights=[1] * n)
+    g = lbgen.Gen(rng, strategy=strat, passive=False, nback=n, weights=[1] * n, scramble=rng.random() < 0.6)
     groups = []
     for gi in range(rng.randint(3, 25 if big else 12)):
         key = rng.choice(KEYS)
